@@ -495,6 +495,20 @@ def app_case(role, flavour, name):
             elif name == 'future-fails':
                 extra['request_response'] = ('special', lambda h, p: create_error_future(make_exc(shape) if shape != 'text' else RuntimeError('late failure')))
                 frames, off = [R.enc_request(R.REQUEST_RESPONSE, sid, b'boom')], {sid}
+            elif name in ('future-cancelled', 'future-cancelled-later'):
+                # the handler's own computation was cancelled: the future it returns is (or becomes) cancelled
+                box = {}
+
+                def cancelled_future(h, p):
+                    box['f'] = create_future()
+                    if name == 'future-cancelled':
+                        box['f'].cancel()
+                    return box['f']
+
+                extra['request_response'] = ('special', cancelled_future)
+                frames, off = [R.enc_request(R.REQUEST_RESPONSE, sid, b'boom')], {sid}
+                if name == 'future-cancelled-later':
+                    post = lambda: box['f'].cancel()
             elif name == 'publisher-errors':
                 box = {}
 
@@ -676,7 +690,7 @@ Bench_default = {}
 
 APP_CASES_SERVER = (['handler-%s-raises%s' % (m, a) for m in ('request_response', 'request_stream', 'request_channel',
                                                              'request_fire_and_forget', 'on_metadata_push') for a in ('', '-after-await')]
-                    + ['future-fails', 'publisher-raises-subscribe', 'publisher-raises-request', 'publisher-raises-cancel',
+                    + ['future-fails', 'future-cancelled', 'future-cancelled-later', 'publisher-raises-subscribe', 'publisher-raises-request', 'publisher-raises-cancel',
                        'generator-raises', 'async-generator-raises', 'channel-subscriber-raises-S', 'channel-subscriber-raises-N',
                        'channel-subscriber-raises-C', 'channel-subscriber-raises-E']
                     + ['router-raises-%s' % m for m in ('request_response', 'request_stream', 'request_channel', 'request_fire_and_forget', 'on_metadata_push')]
